@@ -133,6 +133,9 @@ func valuePool(full bool) []*variants.Variant {
 			t(1700000000), t(-5),
 			variants.VariantFromArray([]*variants.Variant{}), variants.VariantFromObject(map[string]int{"a": 1}),
 			variants.VariantFromInteger(64), variants.VariantFromInteger(10), variants.VariantFromLong(19), variants.VariantFromInteger(-3), variants.VariantFromLong(41), variants.VariantFromLong(2),
+			// the same instants in other zones, instants with nanoseconds
+			variants.VariantFromDateTime(time.Unix(86400, 0).In(time.FixedZone("east", 10800))), variants.VariantFromDateTime(time.Unix(100, 0).In(time.FixedZone("west", -34200))),
+			variants.VariantFromDateTime(time.Unix(100, 500).UTC()), variants.VariantFromDateTime(time.Unix(100, 0).Local()),
 		)
 	}
 	return pool
